@@ -140,6 +140,7 @@ func vfC10Gen(rt *rapid.T) vfC10Case {
 		vfC10RelPush, vfC10RelPush, vfC10Adv, vfC10Adv, vfC10ArmPush, vfC10ArmPush, vfC10ArmPush, vfC10GapPub}
 	for i := 0; i < n; i++ {
 		s := vfC10Step{Kind: rapid.SampledFrom(kinds).Draw(rt, "kind")}
+		var post []vfC10Step
 		if i == 0 {
 			s.Kind = vfC10Sub // every schedule starts with a subscribe so the rest runs against a live / in-flight subscription
 		}
@@ -159,7 +160,17 @@ func vfC10Gen(rt *rapid.T) vfC10Case {
 		case vfC10Unsub:
 			s.Gate = rapid.SampledFrom([]int{0, 1, 1, 2, 2}).Draw(rt, "ugate")
 			s.ByServer = rapid.Bool().Draw(rt, "byServer")
-			if rapid.IntRange(0, 3).Draw(rt, "lagBefore") == 0 {
+			if c.BatchDelayMs > 0 && rapid.IntRange(0, 2).Draw(rt, "batchPending") == 0 {
+				// correlated phrase: a push pending in the channel's batch, a by-server unsubscribe parked in its teardown,
+				// virtual time passing beyond the batch delay, release
+				pre := vfC10Step{Kind: vfC10Pub, Hist: c.HistMode == 1 || (c.HistMode == 2 && rapid.Bool().Draw(rt, "pendHist"))}
+				s.ByServer = true
+				if s.Gate == 0 {
+					s.Gate = 1
+				}
+				c.Steps = append(c.Steps, pre)
+				post = []vfC10Step{{Kind: vfC10Adv, Adv: c.BatchDelayMs + 50}, {Kind: vfC10RelOps}}
+			} else if rapid.IntRange(0, 3).Draw(rt, "lagBefore") == 0 {
 				// correlated prefix: park the writer at its next push and produce one, so that the unsubscribe meets a non-empty queue
 				pre := vfC10Step{Kind: vfC10Pub, Hist: c.HistMode == 1 || (c.HistMode == 2 && rapid.Bool().Draw(rt, "lagHist"))}
 				c.Steps = append(c.Steps, vfC10Step{Kind: vfC10ArmPush}, pre)
@@ -170,6 +181,7 @@ func vfC10Gen(rt *rapid.T) vfC10Case {
 			s.Adv = rapid.SampledFrom([]int{1, 20, 60, 450, 1200}).Draw(rt, "adv")
 		}
 		c.Steps = append(c.Steps, s)
+		c.Steps = append(c.Steps, post...)
 	}
 	return c
 }
